@@ -115,6 +115,33 @@ theorem fpxd_deduplicateNamespaces {f : Forest} (hi : f.Inv) (env : Env) {nd : N
   unfold XotModel.deduplicateNamespaces
   rw [hSe, k2]
 
+theorem mem_hvList_of_mem_root {x : Nat × Value} : ∀ {L : List HTree} {r : HTree}, r ∈ L → x ∈ hv r → x ∈ hvList L
+  | [], _, hr, _ => by cases hr
+  | a :: L, r, hr, hx => by
+    rw [hvList_cons, List.mem_append]
+    rcases List.mem_cons.mp hr with rfl | hr'
+    · exact Or.inl hx
+    · exact Or.inr (mem_hvList_of_mem_root hr' hx)
+
+/-- What the equality of the non-namespace `(handle, value)` pairs says about single handles: a handle
+    of the old root tree that is missing from the new one was a namespace node. -/
+theorem fpxd_only_namespace_nodes_go {f : Forest} (hi : f.Inv) {r r' : HTree} (hrm : r ∈ f.roots)
+    (hv' : (hv r').filter notNsPair = (hv r).filter notNsPair) :
+    ∀ x ∈ handles r, x ∉ handles r' → ∃ p ns, f.value? x = some (.namespace p ns) := by
+  intro x hx hnx
+  rw [← map_fst_hv] at hx
+  obtain ⟨⟨x', v⟩, hm, rfl⟩ := List.mem_map.mp hx
+  have hval : f.value? x' = some v :=
+    (value?_eq_some_iff hi.nodup x' v).mpr (mem_hvList_of_mem_root hrm hm)
+  by_cases hn : notNsPair (x', v) = true
+  · exfalso
+    have : (x', v) ∈ (hv r).filter notNsPair := List.mem_filter.mpr ⟨hm, hn⟩
+    rw [← hv'] at this
+    exact hnx (mem_handles_of_mem_hv (List.mem_filter.mp this).1)
+  · cases v with
+    | «namespace» p ns => exact ⟨p, ns, hval⟩
+    | _ => simp [notNsPair, Value.category] at hn
+
 /-- A node that is in no parentless tree: the call does nothing. -/
 theorem fpxd_dedup_not_live (env : Env) (f : Forest) (nd : Nat) (hr : f.rootOf? nd = none) :
     f.deduplicateNamespaces env nd = (f, .ok) := by
